@@ -266,6 +266,7 @@ type Case struct {
 	Oracle  string `json:"oracle"` // "" ok, else what failed
 	Lost    []string `json:"lost,omitempty"`
 	Opt     J      `json:"opt,omitempty"`
+	Chunks  []J    `json:"chunks,omitempty"` // chunk cases: structure, real bytes, structure after the round trip
 }
 
 func safeParse(s string) (e influxql.Expr, err error) {
